@@ -170,11 +170,15 @@ fn assume_free_list(disk: &[u8; TE * TN], filled: u64, last_removed: u64) -> ([u
 	(list, n)
 }
 
-fn preload(t: &ValueTable, disk: &[u8; TE * TN]) { vf::disk_put(&t.file, 0, disk); }
+fn preload(t: &ValueTable, disk: &[u8; TE * TN]) {
+	// slot by slot: keeps every loop at 32 iterations so that the harnesses can use a small unwind bound
+	let mut s = 0;
+	while s < TN { vf::disk_put(&t.file, s * TE, &disk[s * TE..(s + 1) * TE]); s += 1; }
+}
 
 crate::verif_tbl! {
 #[kani::proof]
-#[kani::unwind(200)]
+#[kani::unwind(40)]
 fn c14_t1_next_free_step() {
 	let disk: [u8; TE * TN] = kani::any();
 	let filled: u64 = kani::any();
@@ -216,7 +220,7 @@ fn c14_t1_next_free_step() {
 
 crate::verif_tbl! {
 #[kani::proof]
-#[kani::unwind(200)]
+#[kani::unwind(40)]
 fn c14_t2_clear_slot_step() {
 	let disk: [u8; TE * TN] = kani::any();
 	let filled: u64 = kani::any();
@@ -255,7 +259,7 @@ fn c14_t2_clear_slot_step() {
 /// Must-fail twin for the table family.
 crate::verif_tbl! {
 #[kani::proof]
-#[kani::unwind(200)]
+#[kani::unwind(40)]
 fn c14_twin_must_fail() {
 	let disk: [u8; TE * TN] = kani::any();
 	let filled: u64 = kani::any();
@@ -792,7 +796,7 @@ fn c01_g1_value_table_log_index() {
 // =====================================================================================
 crate::verif_tbl! {
 #[kani::proof]
-#[kani::unwind(200)]
+#[kani::unwind(40)]
 fn c14_t0_init_free_stack_matches_disk_list() {
 	let disk: [u8; TE * TN] = kani::any();
 	let filled: u64 = kani::any();
